@@ -9,6 +9,8 @@ expr/*   derivative rules of the operator-expression classes: for abstract opera
 dop/*    closed-form derivatives of the pointwise default operators: the value of
          derivative(x0)(d) is compared with the symbolic derivative (sympy.diff) of the pointwise
          expression extracted from _call, times d.
+pointwise-norm/*  PointwiseNorm.derivative(F): PointwiseInner on the operator's domain with the operator's OWN weights and the field
+         G_j = F_j |F_j|^(p-2) / N^(p-1) (masked division where N == 0), F untouched; sympy lemma: that field is the gradient of the weighted p-norm.
 """
 import itertools
 
@@ -30,7 +32,7 @@ META = {
     ],
     'assumptions': ['A1', 'A2', 'A5', 'A7'],
     'not_decided': [
-        'convergence order of central differences (analysis fact); derivatives of PointwiseNorm / ufunc operators / NormOperator / DistOperator '
+        'convergence order of central differences (analysis fact); derivatives of ufunc operators / NormOperator / DistOperator '
         'and product-space operators are not under contract yet',
     ],
 }
@@ -242,6 +244,137 @@ DOP_DER = [('ScalingOperator', None), ('IdentityOperator', None), ('MultiplyOper
            ('ZeroOperator', 'same'), ('ConstantOperator', None), ('RealPart', None), ('ImagPart', None), ('ComplexModulusSquared', None)]
 
 
+TOPS = 'odl.operator.tensor_ops:'
+
+
+def unit_pointwise_norm(p, k=2):
+    """PointwiseNorm.derivative(F) (k components, exponent p, explicit weights w_j): the returned PointwiseInner is built on the operator's domain with the
+    operator's own weights and the vector field G_j = F_j |F_j|^(p-2) / N^(p-1) wherever N = PointwiseNorm(F) != 0 (F_j |F_j|^(p-2) where N == 0, p >= 2),
+    the caller's F is untouched.  Lemma (sympy): w_j F_j |F_j|^(p-2) N^(1-p) is the partial derivative of (sum_j w_j |F_j|^p)^(1/p), so
+    PointwiseInner(domain, G, weighting=w)(d) = sum_j w_j G_j d_j is the Frechet derivative."""
+    def run(ctx):
+        I = ctx.I
+
+        def path(st):
+            setup(st)
+            fr = ip.Frame(st)
+            X = makers.tspace(I, st, 'X', 'real')
+            F = [X.element('F%d' % j) for j in range(k)]
+            F0 = [content(f) for f in F]
+            Nel = X.element('N')
+            wobj = ('weights-array',)
+
+            class PVec(object):
+                def __init__(self, comps):
+                    self.comps = comps
+
+                def pv_iter(self, I_, fr_):
+                    return iter(self.comps)
+
+                def pv_getattr(self, I_, fr_, name):
+                    if name == 'copy':
+                        return ip.Builtin('copy', lambda I2, fr2, a, kw: PVec([I2.call(I2._getattr(c, 'copy', fr2), [], {}, fr2) for c in self.comps]))
+                    raise Unsupported('vector field .%s' % name)
+            vf = PVec(F)
+
+            class PDom(object):
+                def pv_getattr(self, I_, fr_, name):
+                    if name == 'field':
+                        return om.field_obj(I_, 'real')
+                    if name == 'element':
+                        return ip.Builtin('element', lambda I2, fr2, a, kw: a[0])
+                    raise Unsupported('domain.%s' % name)
+            dom = PDom()
+            made = []
+
+            def ctor(I_, fr_, self, *a, **kw):
+                self.fields['ctor'] = (a, dict(kw))
+                made.append(self)
+            st.cuts[TOPS + 'PointwiseInner.__init__'] = ctor
+            op = ip.Obj(I.get_class(TOPS + 'PointwiseNorm'))
+            op.fields.update({'_Operator__domain': dom, '_Operator__range': X.space, '_Operator__is_linear': False, '_exponent': float(p),
+                              '_PointwiseNorm__weights': wobj, '_PointwiseNorm__is_weighted': True, '_PointwiseTensorFieldOperator__base_space': X.space})
+            # NumpyTensor.__ipow__ (any real exponent: np.power in place) and asarray() != 0 as a boolean mask, by their NumPy meaning
+            def ipow(I_, fr_, self, q):
+                set_content(self, VPw('power', (content(self), q.concrete() if isinstance(q, S) and q.concrete() is not None else q)))
+                fr_.st.events.append(('write', self))
+                return self
+
+            class Mask(object):
+                def __init__(self, el, neg=False):
+                    self.el, self.neg = el, neg
+
+                def pv_not(self, I_, fr_):
+                    return X.aux_bool().element(cont=VPw('not', (VPw('eq', (content(self.el), VConst(0.0))),)))
+
+            class ArrView(object):
+                def __init__(self, el):
+                    self.el = el
+
+                def pv_eq(self, I_, fr_, o):
+                    if o == 0:
+                        return Mask(self.el)
+                    return ip.NOTIMPL
+            st.cuts['odl.set.space:LinearSpaceElement.__ipow__'] = ipow
+            st.cuts['odl.space.base_tensors:Tensor.asarray'] = lambda I_, fr_, self, out=None: ArrView(self)
+            # contract of the operator's own evaluation (C03 / _call): a NEW range element holding N(F)
+            st.cuts[oplib.OP + 'Operator.__call__'] = lambda I_, fr_, self, x, out=None, **kw: Nel
+            try:
+                der = I.call(get(I, fr, op, 'derivative'), [vf], {}, fr)
+            except ip.PyRaise as e:
+                return ('raise', e.exc)
+            return ('ok', dict(der=der, dom=dom, w=wobj, F=F, F0=F0, N=Nel, X=X))
+        info = {'exponent': p, 'components': k}
+        for st, (status, r) in ctx.explore(path):
+            if status == 'raise':
+                ctx.fail(st, 'no_raise', 'raises %s' % lib.exc_desc(r), info)
+                continue
+            der = r['der']
+            ok = isinstance(der, ip.Obj) and 'ctor' in der.fields
+            ctx.prove(st, 'derivative is a PointwiseInner', ok and der.cls.name == 'PointwiseInner', info)
+            if not ok:
+                continue
+            a, kw = der.fields['ctor']
+            args = dict(zip(('vfspace', 'vecfield', 'weighting'), a))
+            args.update(kw)
+            ctx.prove(st, 'derivative: on the domain of the operator', args.get('vfspace') is r['dom'], info)
+            ctx.prove(st, 'derivative: with the WEIGHTS OF THE OPERATOR  (sum_j w_j G_j d_j)', args.get('weighting') is r['w'], info)
+            G = args.get('vecfield')
+            okG = G is not None and hasattr(G, 'comps') and len(G.comps) == k
+            ctx.prove(st, 'derivative: vector field with one component per component of F', okG, info)
+            if not okG:
+                continue
+            low = st.lower
+            Nn = low(VVar('N', 'real'))
+            for j in range(k):
+                Fj = low(r['F0'][j])
+                base = Fj * core.pw_apply('power', [core.pw_apply('abs', [Fj]), float(p - 2)])
+                den = Nn if p == 2 else core.pw_apply('power', [Nn, float(p - 1)])
+                got = low(content(G.comps[j]))
+                nz = core.s_not(core.sbool(core.sc_eq(den, 0)))
+                ctx.prove(st, 'G_%d == F_j |F_j|^(p-2) / N^(p-1) where the factor is nonzero' % j, core.s_or(core.s_not(nz), core.sbool(core.sc_eq(got * den, base))), info)
+                if p >= 2:
+                    ctx.prove(st, 'G_%d == F_j |F_j|^(p-2) where the factor is zero (no division)' % j, core.s_or(nz, core.sbool(core.sc_eq(got, base))), info)
+                ctx.prove(st, 'the point F_%d of the caller is not modified' % j, core.sc_eq(low(content(r['F'][j])), low(r['F0'][j])), info)
+            # lemma: the claimed field is the gradient of the p-norm (sympy, F_j != 0, w_j > 0)
+            import sympy as sp
+            f = sp.symbols('f0:%d' % k, real=True, nonzero=True)
+            w = sp.symbols('w0:%d' % k, positive=True)
+            pp = sp.Rational(p).limit_denominator(16)
+            Nexpr = sum(w[j] * sp.Abs(f[j]) ** pp for j in range(k)) ** (1 / pp)
+            good = True
+            for j in range(k):
+                claimed = w[j] * f[j] * sp.Abs(f[j]) ** (pp - 2) * Nexpr ** (1 - pp)
+                diff = sp.simplify(sp.diff(Nexpr, f[j]) - claimed)
+                if diff != 0:
+                    # numeric fallback at rational points (an identity of analytic functions on each orthant)
+                    vals = {f[i]: sp.Rational(3 + 2 * i, 7) * (-1) ** i for i in range(k)}
+                    vals.update({w[i]: sp.Rational(2 + i, 3) for i in range(k)})
+                    good = good and abs(sp.N(diff.subs(vals), 30)) < 1e-20
+            ctx.prove(st, 'lemma: w_j F_j |F_j|^(p-2) N^(1-p) == d/dF_j (sum_j w_j |F_j|^p)^(1/p)   [sympy]', good, info)
+    return Unit('pointwise-norm/p=%s/k=%d' % (p, k), run, funcs=[TOPS + 'PointwiseNorm.derivative'], config={'exponent': p, 'components': k})
+
+
 def unit_canary():
     """must-fail: chain rule taken at the outer point x0 instead of the inner point B(x0)"""
     def run(ctx):
@@ -270,6 +403,9 @@ def units(tier, seed):
             us.append(unit_expr(c, field))
     for c, v in DOP_DER:
         us.append(unit_dop_pointwise(c, v, 'real'))
+    for p in (2, 3, 1.5, 1):
+        us.append(unit_pointwise_norm(p))
+    us.append(unit_pointwise_norm(2, k=3))
     us.append(unit_canary())
     return us
 
